@@ -29,9 +29,19 @@ CL = {
 }
 
 
+def _restore(byscope):
+    """the provider moves to a fresh instance built from the same configuration: export the endpoint context, import it there"""
+    old = server(byscope)
+    store = old.context.dump()
+    del _srv[byscope]
+    new = server(byscope)
+    new.context.load(store, init_args={"upstream_get": new.unit_get, "handler": new.context.session_manager.token_handler})
+    return new
+
+
 def server(byscope=False):
     if byscope not in _srv:
-        s = _srv[byscope] = opbase.make_op(jwt_tokens=True)
+        s = _srv[byscope] = opbase.make_op(jwt_tokens=True, keys="pwsalt")
         ctx = s.context
         if byscope:
             # scope-derived claims at every release point (openid maps to sub)
@@ -63,8 +73,15 @@ def cases(rng, tier):
         logins = [l + ([True] if l in logins[:i] and rng.random() < 0.6 else [False]) for i, l in enumerate(logins)]
         # a fourth element: the request carries a sector_identifier_uri of its own (it is a registration parameter, not a request parameter)
         logins = [l + [rng.choice([None, None, "https://s1.example.org/si.json", "https://s2.example.org/si.json", "https://evil.example/si.json"])] for l in logins]
+        # a fifth element: just before this login the provider's state is exported and imported into a fresh instance
+        logins = [l + [i > 0 and rng.random() < 0.12] for i, l in enumerate(logins)]
         out.append({"t": "seq", "logins": logins, "byscope": rng.random() < 0.5})
     return out
+
+
+def corpus():
+    return [{"t": "seq", "byscope": False, "logins": [["diana", "cP1", False, None, False], ["diana", "cW1", False, None, False], ["diana", "cP1", False, None, True],
+                                                      ["diana", "cW1", False, None, False], ["diana", "cW2", False, None, True]]}]
 
 
 def _payload(jwt):
@@ -82,6 +99,10 @@ def impl(c):
     for n, (user, cid, *more) in enumerate(c["logins"]):
         sso = bool(more and more[0])
         req_sector = more[1] if len(more) > 1 else None
+        if len(more) > 2 and more[2]:
+            s = _restore(c.get("byscope", False))
+            ctx = s.context
+            az, tk, ui, it = (s.get_endpoint(x) for x in ("authorization", "token", "userinfo", "introspection"))
         ctx.authn_broker.db["anon"]["method"].user = user
         red = f"https://{cid.lower()}.example.com/cb"
         extra = {"sector_identifier_uri": req_sector} if req_sector else {}
